@@ -13,10 +13,13 @@ Record side := mkSide {
   sd_client : bool;
   sd_cause : Z * Z;             (* context.Cause(conn.Context()): class, code (classes as in Run.errk_of) *)
   sd_immediate : bool;          (* closeErr.immediate *)
+  sd_sentFirst : bool;          (* Conn.sentFirstPacket *)
+  sd_hs : bool;                 (* Conn.handshakeComplete: the anti-amplification branch of handleCloseError needs it false *)
   sd_sent : bool;               (* closer: a CONNECTION_CLOSE datagram left at the close; others: anything left after it *)
   sd_parked : list (Z * Z);     (* calls parked at the close: (kind, result class) *)
   sd_later : list (Z * Z);      (* calls issued after the close *)
   sd_routing : Z;               (* entries left in the side's transport after the closing period *)
+  sd_delivered : bool;          (* a copy of the side's CONNECTION_CLOSE reached the peer before the peer closed otherwise *)
   sd_peer : option (Z * Z) }.   (* what the peer recorded, if a copy of the close reached it before it closed otherwise *)
 
 Inductive case :=
@@ -45,10 +48,10 @@ Definition sim_api : api :=
 (** what the model says about a side, from (cause, immediate) alone *)
 Definition side_model (s : side) : bool * option (Z * Z) * Z * Z :=
   let ce := {| ce_err := errk_of (sd_cause s); ce_immediate := sd_immediate s |} in
-  let a := close_action (sd_client s) true false ce in
+  let a := close_action (sd_client s) (sd_sentFirst s) false ce in
   (match a with ActSendClose _ _ => true | _ => false end,
    match a with ActSendClose isApp code => Some (if isApp then 3 else 4, code) | _ => None end,
-   exit_routing (sd_client s) true false ce 1 1,
+   exit_routing (sd_client s) (sd_sentFirst s) false ce 1 1,
    0).
 
 Definition call_ok (e : errk) (kc : Z * Z) : bool :=
@@ -58,11 +61,13 @@ Definition check_side (s : side) : bool :=
   let ce := {| ce_err := errk_of (sd_cause s); ce_immediate := sd_immediate s |} in
   let e := mapped_err ce in
   let '(sent, peer, routing, _) := side_model s in
+  sd_hs s &&                     (* established connections: the amplification branch cannot apply *)
   Bool.eqb (sd_sent s) sent &&
   match sd_peer s, peer with
   | Some p, Some q => pair_eqb p q
   | Some _, None => false        (* the peer recorded a remote close that the model says was never sent *)
-  | None, _ => true              (* no copy reached the peer in time *)
+  | None, Some _ => negb (sd_delivered s)   (* a copy reached the peer in time: it must have recorded it *)
+  | None, None => negb (sd_delivered s)
   end &&
   (sd_routing s =? routing) &&
   forallb (call_ok e) (sd_parked s) && forallb (call_ok e) (sd_later s).
